@@ -542,7 +542,7 @@ fn cell_list(rng: &mut Rng, maxlen: u64) -> Vec<u64> {
 pub fn cases_c09(rng: &mut Rng, thorough: bool) -> Vec<Case> {
     let mut v = Vec::new();
     let n = if thorough { 3000 } else { 400 };
-    let budget: u64 = if thorough { 1 << 14 } else { 1 << 12 };
+    let budget: u64 = if thorough { 1 << 13 } else { 1 << 12 };
     v.push(Case::uncompact(vec![], 5));
     v.push(Case::uncompact(vec![0], -1));
     v.push(Case::uncompact(vec![0], 0));
